@@ -121,6 +121,7 @@ def bootstrap_dispatch(ov, name):
     )
     dispatch.__signature__ = LazySignature(ov)
     dispatch.__ovld__ = ov
+    dispatch._bootstrap_code = dispatch.__code__
     dispatch.register = ov.register
     dispatch.resolve = ov.resolve
     dispatch.copy = ov.copy
@@ -505,22 +506,34 @@ class Ovld:
             self.name = self.__name__ = f"ovld{self.id}"
 
         name = self.__name__
-        self.map = MultiTypeMap(name=name, key_error=self._key_error)
+        try:
+            self.map = MultiTypeMap(name=name, key_error=self._key_error)
 
-        self.analyze_arguments()
-        dispatch = generate_dispatch(self, self.argument_analysis)
-        if not hasattr(self, "dispatch"):
-            self.dispatch = bootstrap_dispatch(self, name=self.shortname)
-        self.dispatch.__code__ = rename_code(dispatch.__code__, self.shortname)
-        self.dispatch.__kwdefaults__ = dispatch.__kwdefaults__
-        self.dispatch.__annotations__ = dispatch.__annotations__
-        self.dispatch.__defaults__ = dispatch.__defaults__
-        self.dispatch.__globals__.update(dispatch.__globals__)
-        self.dispatch.map = self.map
-        self.dispatch.__doc__ = self.mkdoc()
+            self.analyze_arguments()
+            dispatch = generate_dispatch(self, self.argument_analysis)
+            if not hasattr(self, "dispatch"):
+                self.dispatch = bootstrap_dispatch(self, name=self.shortname)
+            self.dispatch.__code__ = rename_code(
+                dispatch.__code__, self.shortname
+            )
+            self.dispatch.__kwdefaults__ = dispatch.__kwdefaults__
+            self.dispatch.__annotations__ = dispatch.__annotations__
+            self.dispatch.__defaults__ = dispatch.__defaults__
+            self.dispatch.__globals__.update(dispatch.__globals__)
+            self.dispatch.map = self.map
+            self.dispatch.__doc__ = self.mkdoc()
 
-        for key, fn in list(self.defns.items()):
-            self.register_signature(key, fn)
+            for key, fn in list(self.defns.items()):
+                self.register_signature(key, fn)
+        except BaseException:
+            # Never leave a partially filled table in service: go back to
+            # the state where the next call builds everything again
+            self._compiled = False
+            if hasattr(self, "dispatch"):
+                self.dispatch.__code__ = self.dispatch._bootstrap_code
+                self.dispatch.__defaults__ = None
+                self.dispatch.__kwdefaults__ = None
+            raise
 
         self._compiled = True
 
